@@ -18,7 +18,8 @@
 (*    compare, purgeConsumedLocation, purgeBuffers, buildSample, Push, Pop,  *)
 (*    Flush) on the modulus M, run in lock step with the session.  TLC       *)
 (*    checks the normative predicates on what it emits, exhaustively for     *)
-(*    small streams.  Impl = "asis" is the code as it is.  Repairs, named:   *)
+(*    small streams.  Impl = "pinned" is the code of the pinned tree (the    *)
+(*    documented counterexample).  Repairs, named:                           *)
 (*      A  purgeConsumedLocation releases the whole consumed location, not   *)
 (*         one packet (as is, filled.head lags behind active.head after a    *)
 (*         multi-packet sample and stale packets stay in the buffer);        *)
@@ -29,7 +30,9 @@
 (*         consumed or dropped and ignores older packets (as is, once its    *)
 (*         locations are empty it has no memory and a late or duplicated     *)
 (*         packet is emitted again / out of order).                          *)
-(*    Impl = "fixAB" has A and B, Impl = "fixABC" all three.                 *)
+(*    Impl = "fixAB" has A and B, Impl = "fixABC" all three, and so on for   *)
+(*    every subset; Impl = "current" has CurrentRepairs, the repairs the     *)
+(*    repaired samplebuilder.go carries.                                     *)
 (*                                                                           *)
 (* Algo = "none" only generates sessions (used with -simulate and the        *)
 (* seeded Pick below to sample long streams for the replay).                 *)
@@ -44,6 +47,7 @@ CONSTANTS M,            \* sequence-number modulus
           Delays,       \* values of the maximal timestamp distance (in frame steps); 0 = WithMaxTimeDelay off
           StartBacks,   \* first sequence number = M - startBack
           MarkerModes,  \* subset of BOOLEAN: last packet of a frame is a partition tail
+          HeadModes,    \* subset of BOOLEAN: TRUE = every packet is a partition head (as H.264 single-NAL packets are), FALSE = only the first of a frame
           Windows,      \* network reordering bounds: a packet overtakes fewer than `window` older undelivered packets
           Modes,        \* subset of {"clean", "lossy", "dup", "pops", "all"}: what may happen besides reordering
           MaxLoss, MaxDup, MaxPopCalls,
@@ -53,13 +57,22 @@ CONSTANTS M,            \* sequence-number modulus
           HoldFors,     \* (sampling) ... until so many later packets have been delivered
           Situations,   \* TRUE: arrivals carry the situation they were pushed in (labels of failure classes); FALSE saves states
           Algo,         \* "none" | "abstract" | "ring"
-          Impl,         \* "asis" | "fixAB" | "fixABC"
+          Impl,         \* "pinned" | "current" (CurrentRepairs) | "fixA" ... "fixABC" (any subset of the repairs)
           Sampling      \* TRUE: every choice is one seeded random draw (for -simulate)
 
 VARIABLES phase, par, frames, pkts, script, pending, nextIdx, sent, nloss, ndup, npop, nflush, sb, emitted, pushed, premOK, bad,
           since, poppedSince   \* pushed since the last Flush; Pop called on them
 
 vars == <<phase, par, frames, pkts, script, pending, nextIdx, sent, nloss, ndup, npop, nflush, sb, emitted, pushed, premOK, bad, since, poppedSince>>
+
+\* which of the repairs A, B, C (see the header) the modelled implementation has
+CurrentRepairs == {"A", "B", "C"}
+Repairs == CASE Impl = "pinned"  -> {}
+             [] Impl = "current" -> CurrentRepairs
+             [] Impl = "fixA" -> {"A"} [] Impl = "fixB" -> {"B"} [] Impl = "fixC" -> {"C"}
+             [] Impl = "fixAB" -> {"A", "B"} [] Impl = "fixAC" -> {"A", "C"} [] Impl = "fixBC" -> {"B", "C"}
+             [] Impl = "fixABC" -> {"A", "B", "C"}
+Has(r) == r \in Repairs
 
 Pick(S) == IF Sampling THEN RandomSubset(1, S) ELSE S
 \* in sampling mode: true with probability num/10
@@ -96,7 +109,7 @@ PurgeConsumedLocation(s, consume, force) ==
   ELSE LET c == Compare(consume, s.filled.h) IN
        IF c = "before" \/ (c = "inside" /\ force)
        THEN LET s1 == [Release(s, s.filled.h) EXCEPT !.filled.h = (s.filled.h + 1) % M]
-            IN IF Impl # "asis" THEN PurgeConsumedLocation(s1, consume, force) ELSE s1
+            IN IF Has("A") THEN PurgeConsumedLocation(s1, consume, force) ELSE s1
        ELSE s
 PurgeConsumedBuffers(s) == PurgeConsumedLocation(s, s.active, FALSE)
 
@@ -116,7 +129,7 @@ TooOld(s, l, delay) ==
                IN (IF d < 0 THEN -d ELSE d) > delay
 
 \* repair C bookkeeping: the position up to which packets were consumed or given up only moves forward
-Raise(fl, pos) == IF Impl = "fixABC" /\ (~fl.valid \/ SeqBefore(fl.seq, pos, M)) THEN [valid |-> TRUE, seq |-> pos] ELSE fl
+Raise(fl, pos) == IF Has("C") /\ (~fl.valid \/ SeqBefore(fl.seq, pos, M)) THEN [valid |-> TRUE, seq |-> pos] ELSE fl
 
 \* the scan of buildSample: walks from active.head while packets are present and not after `active`
 RECURSIVE Scan(_, _, _)
@@ -159,7 +172,7 @@ PurgeLoopN(s0, flush, delay, maxLate, budget) ==
   IF HasData(sA.active) /\ sA.active.h = sA.filled.h
   THEN LET r == BuildSample(sA, TRUE) IN
        IF r.built THEN PurgeLoopN(r.s, flush, delay, maxLate, budget - 1)
-       ELSE IF Impl # "asis" /\ r.s.filled.h # sA.filled.h
+       ELSE IF Has("B") /\ r.s.filled.h # sA.filled.h
             THEN \* repair B: buildSample has already dropped the run and moved filled.head itself
                  PurgeLoopN(r.s, flush, delay, maxLate, budget - 1)
             ELSE \* "could not build the sample so drop it" -- also taken when buildSample dropped a run
@@ -175,7 +188,7 @@ PurgeLoopN(s0, flush, delay, maxLate, budget) ==
 PurgeBuffers(s, flush, delay, maxLate) == PurgeLoop(PurgeConsumedBuffers(s), flush, delay, maxLate)
 
 DoPush(s, p, delay, maxLate) ==
-  IF Impl = "fixABC" /\ s.floor.valid /\ p.seq # s.floor.seq /\ ~SeqBefore(s.floor.seq, p.seq, M)
+  IF Has("C") /\ s.floor.valid /\ p.seq # s.floor.seq /\ ~SeqBefore(s.floor.seq, p.seq, M)
   THEN s          \* repair C: older than what was already consumed or given up -- ignored
   ELSE
   LET s1 == [s EXCEPT !.buf[p.seq] = p]
@@ -215,13 +228,13 @@ MkPkts ==
                  ts1 == IF f > 1 /\ fr.same THEN ts ELSE ts + 1
                  new == [k \in 1..fr.size |->
                            [tag |-> idx + k, seq |-> (M - par.startBack + idx + k - 1) % M, ts |-> ts1,
-                            head |-> k = 1, tail |-> par.markers /\ k = fr.size, frame |-> f, sit |-> ""]]
+                            head |-> (k = 1 \/ par.heads), tail |-> par.markers /\ k = fr.size, frame |-> f, sit |-> ""]]
              IN Build(f + 1, acc \o new, ts1, idx + fr.size)
   IN Build(1, <<>>, 0, 0)
 
 Init == /\ phase = "setup"
         /\ par = [maxLate |-> 0, delay |-> 0, startBack |-> 0, markers |-> TRUE, window |-> 1, mode |-> "clean",
-                 eager |-> FALSE, hold |-> 0, holdFor |-> 0]
+                 eager |-> FALSE, hold |-> 0, holdFor |-> 0, heads |-> FALSE]
         /\ frames = <<>> /\ pkts = <<>> /\ script = <<>> /\ pending = {} /\ nextIdx = 1 /\ sent = {}
         /\ nloss = 0 /\ ndup = 0 /\ npop = 0 /\ nflush = 0 /\ sb = SB0 /\ emitted = <<>>
         /\ pushed = {} /\ premOK = TRUE /\ bad = {}
@@ -231,9 +244,10 @@ Init == /\ phase = "setup"
 Setup ==
   /\ phase = "setup"
   /\ \E ml \in Pick(MaxLates), d \in Pick(Delays), b \in Pick(StartBacks), mk \in Pick(MarkerModes),
-        w \in Pick(Windows), md \in Pick(Modes), eg \in Pick(Eagers), h \in Pick(Holds), hf \in Pick(HoldFors) :
+        w \in Pick(Windows), md \in Pick(Modes), eg \in Pick(Eagers), h \in Pick(Holds), hf \in Pick(HoldFors),
+        hd \in Pick(HeadModes) :
         par' = [maxLate |-> ml, delay |-> d, startBack |-> b, markers |-> mk, window |-> w, mode |-> md,
-                eager |-> eg, hold |-> h, holdFor |-> hf]
+                eager |-> eg, hold |-> h, holdFor |-> hf, heads |-> hd]
   /\ phase' = "frames"
   /\ UNCHANGED <<frames, pkts, script, pending, nextIdx, sent, nloss, ndup, npop, nflush, sb, emitted, pushed, premOK, bad, since, poppedSince>>
 
@@ -282,7 +296,7 @@ MayPop  == par.mode \in {"pops", "all"}
 Log(x) == Append(script, x)
 
 Vec == [maxLate |-> par.maxLate, delay |-> par.delay, startBack |-> par.startBack, markers |-> par.markers,
-        window |-> par.window, mode |-> par.mode, eager |-> par.eager, hold |-> par.hold,
+        window |-> par.window, mode |-> par.mode, eager |-> par.eager, hold |-> par.hold, heads |-> par.heads,
         frames |-> [k \in DOMAIN frames |-> frames[k].size],
         same |-> [k \in DOMAIN frames |-> frames[k].same], script |-> script]
 
@@ -297,12 +311,12 @@ Failing(prev, tags, scr, sit) ==
   LET s   == [tags |-> tags, wf |-> TRUE, at |-> Len(scr)]     \* comes out of the call at the end of scr
       all == Append(prev, s)
   IN
-  (IF ContiguousSameTs(pkts, PushesOf(scr), s, M) THEN {} ELSE {"ContiguousSameTs"})
-  \cup (IF StartsAtHead(pkts, s) THEN {} ELSE {"StartsAtHead"})
+  (IF ContiguousSameTs(pkts, PushesOf(scr), s, M) THEN {} ELSE {<<"ContiguousSameTs", "">>})
+  \cup (IF StartsAtHead(pkts, s) THEN {} ELSE {<<"StartsAtHead", "">>})
   \cup (IF prev = <<>> \/ InOrder(pkts, prev[Len(prev)], s, M) THEN {}
-        ELSE {"InOrder:" \o InOrderShape(pkts, all, Len(all), M) \o ":" \o CtxLabel(sit)})
+        ELSE {<<"InOrder", ":" \o InOrderShape(pkts, all, Len(all), M) \o ":" \o CtxLabel(sit)>>})
   \cup (IF ~ReusesPacket(all, Len(all)) THEN {}
-        ELSE {"NoPacketTwice:" \o ReuseShape(all, Len(all)) \o ":" \o CtxLabel(sit)})
+        ELSE {<<"NoPacketTwice", ":" \o ReuseShape(all, Len(all)) \o ":" \o CtxLabel(sit)>>})
 
 RECURSIVE Judge(_, _, _)
 \* prev: samples so far, new: what comes out now, a sequence of [tags, sit]; returns [em, bad]
@@ -339,7 +353,7 @@ Emit(new) ==
             k == <<c, dups>> IN
         \/ k \in TLCGet(1)          \* this worker has printed an example of the class already
         \/ /\ TLCSet(1, TLCGet(1) \cup {k})
-           /\ PrintT(<<"VERIF_CLASS", ToJson([class |-> c, dups |-> dups, vec |-> [Vec EXCEPT !.script = script']])>>)
+           /\ PrintT(<<"VERIF_CLASS", ToJson([class |-> c[1] \o c[2], dups |-> dups, vec |-> [Vec EXCEPT !.script = script']])>>)
 
 \* every arrival carries the situation in which it was pushed (the real driver numbers the arrivals in
 \* the payload, so a sample names the very pushes it was built from)
@@ -438,13 +452,12 @@ Spec == Init /\ [][Next]_vars
 
 \* ---- what TLC checks -----------------------------------------------------------------------------
 mcview == <<phase, par, frames, pkts, pending, nextIdx, sent, nloss, ndup, npop, nflush, sb, emitted, pushed, premOK, bad, since, poppedSince>>
-Labels(pred, shapes) == {pred \o ":" \o sh \o ":abstract:" \o wc : sh \in shapes, wc \in WindowClasses} \cup
-                        {pred \o ":" \o sh \o ":" \o cx \o fl \o ":" \o wc :
-                            sh \in shapes, cx \in Contexts, fl \in {"/after-a-flush", "/no-flush-yet"}, wc \in WindowClasses}
-ModelContiguousSameTs == "ContiguousSameTs" \notin bad
-ModelStartsAtHead     == "StartsAtHead" \notin bad
-ModelInOrder          == bad \cap Labels("InOrder", {"repeat", "older", "other"}) = {}
-ModelNoPacketTwice    == bad \cap Labels("NoPacketTwice", {"repeat", "overlap"}) = {}
+\* `bad` holds <<predicate, label>> pairs (label: shape, situation, window class; "" when there is none)
+Failed(pred) == \E c \in bad : c[1] = pred
+ModelContiguousSameTs == ~Failed("ContiguousSameTs")
+ModelStartsAtHead     == ~Failed("StartsAtHead")
+ModelInOrder          == ~Failed("InOrder")
+ModelNoPacketTwice    == ~Failed("NoPacketTwice")
 
 \* the completeness premise of SampleBuilderOps, from the summarised history: npop counts Pop calls
 \* made before the final Flush, nflush earlier Flush calls, nloss / ndup losses and duplicates, premOK
